@@ -22,7 +22,8 @@ _adv_str = gv.text(6, dollar=True)
 _VALS = {
     "str": _adv_str,
     "int": gv.ints,
-    "float": st.one_of(st.integers(-(2**40), 2**40).map(lambda k: k / 1024.0), st.sampled_from([0.0, 1.5, -2.25, 1e300, 5e-324, 0.1, 1e-7, 123456.789])),
+    # at most 15 significant digits: longer decimal renderings of a float are a listed C01 finding (parsed as DECIMAL, then off by an ulp)
+    "float": st.one_of(st.integers(-(2**40), 2**40).map(lambda k: k / 8.0), st.sampled_from([0.0, 1.5, -2.25, 1e300, 5e-324, 0.1, 1e-7, 123456.789])),
     "dec": gv.decimals(28, 10),
     "bool": st.booleans(),
     "date": gv.dates,
